@@ -83,6 +83,15 @@ def check(tier, seed, replay=None):
                         r["cmp"] = "ge"
                         r["b"] = sum(r["a"]) - r["b"]
                     covering.append(m_)
+                # ... and as the minimisation of the negated value with a POSITIVE constant: a negative objective
+                # that the constant brings towards zero from below
+                for k, frac in enumerate((0.4, 0.7, 1.0)):
+                    m_ = copy.deepcopy(c)
+                    m_["id"] = f"{c['id']}_neg{k}"
+                    m_["sense"] = "min"
+                    m_["obj"] = [-x for x in c["obj"]]
+                    m_["off"] = int(frac * big)
+                    covering.append(m_)
         meta["covering"] = {"cases": len(covering)}
         cases += covering
         for i, c in enumerate(cases):
